@@ -5,7 +5,7 @@ ENTRY = dict(
     design_ref="DESIGN.md section 6 / C03",
     technique="Lean 4 theorems over all frames / streams / configurations (envelope model shared with C01, byte-level network-info and "
               "program-version codecs, PyFrame equality model) + correspondence with Frame.bytes -> FrameReader.read -> fields -> .bytes, "
-              "X(data=d).message -> X(message=...).data, and Python ==/!= on generated frame pairs",
+              "X(data=d).message -> X(message=...).data, and Python ==/!= on generated frame pairs + code tie: network-info and program-version encode / decode and the frame object translated from their source text on each run with kernel-checked `translated = model` theorems and the round trips restated on the translated code (Props/TieNetInfo, TieNetInfoEnc, TieNetVersion, TieNetVersionEnc, TieFrameObjRun)",
     prop_modules=["C03", "C03Object", "TieFrameObj", "TieFrameObjRun", "TieNetVersion", "TieNetInfo", "TieNetInfoEnc", "TieNetVersionEnc"],
     level_text=(
         "Proof: `C03.read_encode` shows for ALL frames that pass the reader's gates (<= 1000 bytes, addressed to the library or broadcast, "
